@@ -9,7 +9,8 @@ LEVEL_TEXT = ("Each of 49 unsupported statements (12 pre-filtered by leading wor
               "statement boundary of 6 supported scripts, under silent True/False and 3 modes (15 in thorough; thorough also every PAIR of unsupported statements at any two boundaries); plus every generated and "
               "corpus script under silent=False, and the unknown-mode names. All executed on the real library."
               " Wave 5: a batch script with GO / USE lines that carry no ';' (every boundary after such a line is an insertion point), a script whose literals hold unpaired parentheses, and 18 more unknown-mode names that are fragments or combinations of valid ones."
-              " Defect hunt: a 'robust' kind - 21 realistic statements at the edge of the grammar (T-SQL db..table, STAGE_FILE_FORMAT, DEFAULT CAST, '^', prefixed literals, pg_dump ALTER COLUMN SET DEFAULT, USING btree, bracket names with blanks, trailing STRICT / ENABLE / NOLOGGING ...) before and after every supported script: silent=True never raises, silent=False raises nothing but DDLParserError, and when neither raises both agree.")
+              " Defect hunt: a 'robust' kind - 21 realistic statements at the edge of the grammar (T-SQL db..table, STAGE_FILE_FORMAT, DEFAULT CAST, '^', prefixed literals, pg_dump ALTER COLUMN SET DEFAULT, USING btree, bracket names with blanks, trailing STRICT / ENABLE / NOLOGGING ...) before and after every supported script: silent=True never raises, silent=False raises nothing but DDLParserError, and when neither raises both agree."
+              ' Wave 6: a statement that silent=False rejects must yield NO entity under silent=True; table entries keep their list / dict shapes; a mixed-terminator script.')
 LEVEL_NOTE = ("'Unsupported' is the frozen catalogue below; 'supported DDL' is the generated scripts plus corpus scripts that the "
               "tests themselves parse with silent=False or whose silent=True result is non-empty and complete (see rule).")
 RULE = ("case = (base script, unsupported statement, insertion position, mode) evaluated under both silent settings, or "
